@@ -13,7 +13,7 @@ import vlib
 PREFIX = {"id": "id: ", "kv": "k=", "k": "", "tag": ""}
 GROUP_RE = r"id: (?P<value>[^ ]+)"
 PLAIN_RE = r"k=[^ ]+"
-LP = {"lower": "^[a-z]+$", "digit": "[0-9]", "startx": "^x", "any": ".*"}
+LP = {"lower": "^[a-z]+$", "digit": "[0-9]", "startx": "^x", "min3": "^.{3,}$", "any": ".*"}
 CODE = {"sorted": "keep-sorted", "unique": "keep-unique", "pattern": "line-pattern", "count": "line-count"}
 
 
@@ -117,9 +117,10 @@ def selfcheck_line(l, pat):
             raise vlib.ToolError("concretiser self-check: key of %r under %s: %r" % (text, pat, got))
 
 
-def judge(case, res, text, line_of, layout):
-    """Compares one real result with the contract.  Returns (status, detail):
-    status in ok | gray | bad ; detail explains a mismatch."""
+def judge(case, res, text, line_of, layout, span=None):
+    """Compares one real result with the contract for ONE block of the file (span = (first,last)
+    file line of the block; diagnostics outside it belong to other blocks of the same file).
+    Returns (status, detail): status in ok | gray | bad."""
     exp, cfg = case["expect"], case["cfg"]
     code = CODE[cfg["kind"]]
     if res["outcome"] in ("panic", "hang", "abort"):
@@ -128,17 +129,20 @@ def judge(case, res, text, line_of, layout):
         return "gray", None
     if res["outcome"] != "ok":
         return "bad", "run failed (%s): %s" % (res["outcome"], (res.get("error") or "")[:200])
-    diags = [d for ds in (res["report"] or {}).values() for d in ds if d["code"] == code]
-    other = [d for ds in (res["report"] or {}).values() for d in ds if d["code"] != code]
+    alld = [d for ds in (res["report"] or {}).values() for d in ds]
+    if span is not None:
+        alld = [d for d in alld if span[0] <= d["range"]["start"]["line"] <= span[1]]
+    diags = [d for d in alld if d["code"] == code]
+    other = [d for d in alld if d["code"] != code]
     if other:
         return "bad", "unexpected diagnostics %s" % [d["code"] for d in other]
     if exp["v"] == "ok":
-        if diags or res["exit"] != 0:
-            return "bad", "expected no violation, got %s exit=%s" % (json.dumps(diags)[:300], res["exit"])
+        if diags:
+            return "bad", "expected no violation, got %s" % (json.dumps(diags)[:300])
         return "ok", None
     # expected violation
     if len(diags) != 1:
-        return "bad", "expected exactly one %s violation, got %d" % (code, len(diags))
+        return "bad", "expected exactly one %s violation for the block at lines %s, got %d" % (code, span, len(diags))
     if res["exit"] != 1:
         return "bad", "violation reported but exit=%s" % res["exit"]
     d = diags[0]
@@ -165,64 +169,94 @@ def judge(case, res, text, line_of, layout):
     return "ok", None
 
 
+PACK = 3   # blocks per generated file: several violating blocks of one validator in one file
+
+
 def replay(chk, cases, layouts=("line",), cli_sample=0, trace=False, label=""):
-    """Runs every case through bwexec under each layout, a sample through the CLI."""
+    """Runs every case through bwexec under each layout (PACK blocks per file), a sample through the CLI."""
     batch = []
-    meta = {}
+    meta = {}      # file case id -> list of (case, line_of, layout, span)
+    concs = {}
+    texts = {}
     n = 0
-    for ci, case in enumerate(cases):
-        for l in case["block"]:
-            selfcheck_line(l, case["cfg"]["pat"])
-        for layout in layouts:
+    for layout in layouts:
+        group, gtext, glines = [], "", 0
+
+        def flush():
+            nonlocal group, gtext, glines
+            if not group:
+                return
+            cid = "%s%s-%d" % (label, layout, len(batch))
+            ext = "py" if layout in ("line", "same") else "rs"
+            conc = {"id": cid, "files": {"f." + ext: gtext}, "diff": None, "args": [], "terminal": True}
+            batch.append(conc)
+            meta[cid] = group
+            concs[cid] = conc
+            texts[cid] = gtext
+            group, gtext, glines = [], "", 0
+
+        for ci, case in enumerate(cases):
             if layout == "same" and case["block"]:
                 continue
-            pre = (ci % 3) if layout == "line" else 0
+            for l in case["block"]:
+                selfcheck_line(l, case["cfg"]["pat"])
+            pre = ci % 3
             name, text, line_of = render(case, layout, pre)
-            cid = "%s%d-%s" % (label, ci, layout)
-            conc = {"id": cid, "files": {name: text}, "diff": None, "args": [], "terminal": True}
-            batch.append(conc)
-            meta[cid] = (case, text, line_of, layout, conc)
+            nl = text.count("\n")
+            if case["expect"]["v"] == "gray":
+                flush()
+            off = glines
+            group.append((case, (lambda j, lo=line_of, o=off: lo(j) + o), layout, (off + 1, off + nl)))
+            gtext += text
+            glines += nl
             n += 1
+            if case["expect"]["v"] == "gray" or len(group) >= PACK:
+                flush()
+        flush()
     results = vlib.run_bwexec(batch)
-    for cid, (case, text, line_of, layout, conc) in meta.items():
+    for cid, group in meta.items():
         res = results.get(cid)
         if res is None:
             raise vlib.ToolError("no result for case " + cid)
-        status, detail = judge(case, res, text, line_of, layout)
-        nontrivial = len(case["block"]) >= 2
-        chk.count(nontrivial=nontrivial)
-        if status == "gray":
-            chk.gray += 1
-            # impl-shaped prediction vs observation: drift only
-            pred = case["impl"]["v"]
-            obs = "err" if res["outcome"] == "error" else ("viol" if res["exit"] == 1 else "ok")
-            if pred != obs:
-                chk.drift += 1
-        elif status == "bad":
-            chk.violation(detail, {"abstract": case, "concrete": conc, "expected": case["expect"],
-                                   "observed": {k: res.get(k) for k in ("outcome", "exit", "report", "error")}})
+        for (case, line_of, layout, span) in group:
+            status, detail = judge(case, res, texts[cid], line_of, layout, span)
+            chk.count(nontrivial=len(case["block"]) >= 2)
+            if status == "gray":
+                chk.gray += 1
+                pred = case["impl"]["v"]
+                obs = "err" if res["outcome"] == "error" else ("viol" if res["exit"] == 1 else "ok")
+                if pred != obs:
+                    chk.drift += 1
+            elif status == "bad":
+                chk.violation(detail, {"abstract": case, "concrete": concs[cid], "block_lines": span,
+                                       "expected": case["expect"],
+                                       "observed": {k: res.get(k) for k in ("outcome", "exit", "report", "error")}})
+        # exit status of the file as a whole: 1 iff some block violates (all default severity)
+        if res["outcome"] == "ok" and all(c["expect"]["v"] != "gray" for c, _, _, _ in group):
+            want = 1 if any(c["expect"]["v"] == "viol" for c, _, _, _ in group) else 0
+            if res["exit"] != want:
+                chk.violation("exit status %s, expected %s" % (res["exit"], want), {"concrete": concs[cid]})
     # CLI sample
     if cli_sample:
         ids = sorted(meta)
         chk.rng.shuffle(ids)
         sample = ids[:cli_sample]
-        cres = vlib.run_cli([meta[c][4] for c in sample])
+        cres = vlib.run_cli([concs[c] for c in sample])
         for cid in sample:
-            case, text, line_of, layout, conc = meta[cid]
             res = cres[cid]
-            status, detail = judge(case, res, text, line_of, layout)
-            chk.count(nontrivial=False)
-            if status == "bad":
-                chk.violation("CLI: " + detail, {"abstract": case, "concrete": conc, "expected": case["expect"],
-                                                 "observed": {k: res.get(k) for k in ("outcome", "exit", "report", "error")}})
-            # in-process and CLI must agree on the observable result
+            for (case, line_of, layout, span) in meta[cid]:
+                status, detail = judge(case, res, texts[cid], line_of, layout, span)
+                chk.count(nontrivial=False)
+                if status == "bad":
+                    chk.violation("CLI: " + detail, {"abstract": case, "concrete": concs[cid], "expected": case["expect"],
+                                                     "observed": {k: res.get(k) for k in ("outcome", "exit", "report", "error")}})
             r2 = results[cid]
             if (res["outcome"], res["exit"], _norm(res["report"])) != (r2["outcome"], r2["exit"], _norm(r2["report"])):
-                chk.violation("CLI and in-process pipeline disagree", {"concrete": conc, "cli": res, "inproc": r2})
+                chk.violation("CLI and in-process pipeline disagree", {"concrete": concs[cid], "cli": res, "inproc": r2})
     if meta:
         cid = sorted(meta)[len(meta) // 2]
-        case, text, _, layout, conc = meta[cid]
-        chk.sample({"abstract": case, "file": text, "layout": layout})
+        case, _, layout, _ = meta[cid][0]
+        chk.sample({"abstract": case, "file": texts[cid], "layout": layout})
     return n
 
 
